@@ -1,6 +1,8 @@
 package rules
 
 import (
+	"go/types"
+	"reflect"
 	"strings"
 	"fmt"
 	"go/token"
@@ -110,6 +112,27 @@ func c14(r *engine.Report, p *engine.Program) {
 				}
 				_ = parts
 			}
+		}
+		// the re-read overwrites every field of the writer's long-lived copy: UpdateFullStatus/Load
+		// decode the stored record INTO an existing StatusFileData, so a field that can be absent
+		// from the encoding (omitempty, "-") would keep the writer's stale value
+		if sfdT := p.NamedType("workceptor", "StatusFileData"); sfdT != nil {
+			st := sfdT.Underlying().(*types.Struct)
+			var bad []string
+			for i := 0; i < st.NumFields(); i++ {
+				if !st.Field(i).Exported() {
+					continue
+				}
+				tag := reflect.StructTag(st.Tag(i)).Get("json")
+				if tag == "-" || strings.Contains(tag, "omitempty") || strings.Contains(tag, "omitzero") {
+					bad = append(bad, st.Field(i).Name()+" `json:\""+tag+"\"`")
+				}
+			}
+			r.Check("R3-read-modify-write", "StatusFileData: every exported field is always present in the stored encoding", token.NoPos, len(bad) == 0,
+				fmt.Sprintf("%d fields, none tagged omitempty or \"-\": decoding the stored record into a long-lived copy overwrites all of them", st.NumFields()),
+				"field(s) "+strings.Join(bad, ", ")+" can be absent from the stored record: a writer that re-reads the file keeps its own stale value for them and writes it back (another writer's clearing of the field is undone)")
+		} else {
+			r.Broken("type StatusFileData not found")
 		}
 		// every I/O step of the three status-file primitives reports its failure: an update that could
 		// not be read back, positioned, truncated or written must not look like a successful update
